@@ -13,7 +13,7 @@ def isInfixL : List Char → List Char → Bool
 def strIn (a b : String) : Bool := isInfixL a.toList b.toList
 
 inductive GOp where
-  | eq | ne | in_ | notIn | gt | ge | lt | le
+  | eq | ne | in_ | notIn | gt | ge | lt | le | contains | notContains
 deriving DecidableEq, Repr
 
 namespace GOp
@@ -24,16 +24,19 @@ def order : GOp → Nat
 def str : GOp → String
   | .eq => "==" | .ne => "!=" | .in_ => "in" | .notIn => "not in"
   | .gt => ">" | .ge => ">=" | .lt => "<" | .le => "<="
+  | .contains => "contains" | .notContains => "not contains"
 
 def ofString? : String → Option GOp
   | "==" => some .eq | "!=" => some .ne | "in" => some .in_ | "not in" => some .notIn
   | ">" => some .gt | ">=" => some .ge | "<" => some .lt | "<=" => some .le
+  | "contains" => some .contains | "not contains" => some .notContains
   | _ => none
 
 /-- `invert_map` -/
 def invert : GOp → GOp
   | .eq => .ne | .ne => .eq | .notIn => .in_ | .in_ => .notIn
   | .lt => .ge | .le => .gt | .gt => .le | .ge => .lt
+  | .contains => .notContains | .notContains => .contains
 end GOp
 
 structure GSpec where
@@ -60,6 +63,8 @@ def containsWith (sub : String → String → Bool) (g : GSpec) (s : String) : B
   | .ge => decide (¬ s < g.value)
   | .lt => decide (s < g.value)
   | .le => decide (¬ g.value < s)
+  | .contains => sub g.value s          -- the reversed atom `"literal" in variable`
+  | .notContains => !sub g.value s
 
 def contains (g : GSpec) (s : String) : Bool := containsWith strIn g s
 
